@@ -274,13 +274,13 @@ def round_level(ctx, binp, dev_sat, dev_rng):
         cat.append(rnd)
     want = set(predicted)
     rng = __import__("random").Random(ctx.seed)
-    if quick and len(cat) > 110:
-        # quick tier: the model's counterexample rounds plus a seeded sample of the catalogue
+    if len(cat) > (420 if quick else 3000):
+        # bound on the number of rounds: the model's counterexample rounds plus a seeded sample of the rest
         ce = {(tuple(v["offers"]), tuple(v["descs"])) for v in predicted.values()}
         forced = [r for r in cat if (tuple(o["id"] for o in r["offers"]), tuple(d["id"] for d in r["descs"])) in ce]
         rest = [r for r in cat if r not in forced]
         rng.shuffle(rest)
-        cat = forced + rest[:110 - len(forced)]
+        cat = forced + rest[:(420 if quick else 3000) - len(forced)]
     scenarios = [round_scenario(100 + i, rnd) for i, rnd in enumerate(cat)]
     by_id = {s["id"]: s for s in scenarios}
     lines = cs.run_scenarios(ctx, scenarios, timeout=900)
